@@ -1,12 +1,13 @@
 """C02 — outbound packets are spec-conformant and carry what the user supplied: configuration of ./check C02."""
 
 PROP = {'areas': [{'area': 'c02',
-            'corpus': ['corpus/C02/d3_subscribe_subid.txt', 'corpus/C02/boundaries.txt', 'corpus/C02/trailing_empty.txt',
-                       'corpus/C02/d28_nul_in_string.txt'],
+            'corpus': ['corpus/C02/d3_subscribe_subid.txt', 'corpus/C02/boundaries.txt', 'corpus/C02/trailing_empty.txt', 'corpus/C02/d28_nul_in_string.txt'],
             'quick': 20000,
             'thorough': 1000000},
            {'area': 'engine',
-            'corpus': ['corpus/engine/d25_connect311_empty_client_id.script', 'corpus/engine/d27_assigned_client_id_nul.script'],
+            'corpus': ['corpus/engine/d25_connect311_empty_client_id.script',
+                       'corpus/engine/d27_assigned_client_id_nul.script',
+                       'corpus/engine/d29_connect311_password_without_username.script'],
             'extra': ['100'],
             'only_prop': 'C02',
             'quick': 3000,
